@@ -67,26 +67,49 @@ theorem Inv.others_quiet (h : Inv n0 nthreads stride s) (hl : s.threads[t]? = so
 
 /-! ## frame lemmas for the thread-local part -/
 
+/-- the only way the word of a *past* generation can show up is by staying -/
+def WordFrame (s s' : State) : Prop :=
+  ∀ g, g < s.gen → s'.sizeCtl = .resizing g 1 → s.sizeCtl = .resizing g 1
+
+theorem WordFrame.of_eq (h : s'.sizeCtl = s.sizeCtl) : WordFrame s s' := by
+  intro g _ hw; rw [← h]; exact hw
+
+theorem JoinOk.frame {sc : SC} (h : JoinOk s l sc) (hheld : l.heldGen ≤ s.gen)
+    (hw : WordFrame s s') : JoinOk s' l sc := by
+  obtain ⟨hf, g, c, rfl, hg, hc⟩ := h
+  refine ⟨hf, g, c, rfl, hg, fun h1 => ⟨(hc h1).1, fun h2 => (hc h1).2 (hw g ?_ h2)⟩⟩
+  have := (hc h1).1; omega
+
 theorem LocalOk.frame (h : LocalOk s l) (hn : s'.n = s.n) (hnt : s'.nextTable = s.nextTable)
-    (hm : ∀ idx, s.moved.getD idx false = true → s'.moved.getD idx false = true) :
+    (hm : ∀ idx, s.moved.getD idx false = true → s'.moved.getD idx false = true)
+    (hgen : s'.gen = s.gen) (hheld : l.heldGen ≤ s.gen) (hw : WordFrame s s') :
     LocalOk s' l := by
   have mf : ∀ lo, MovedFrom s lo → MovedFrom s' lo := by
     intro lo H idx h1 h2; exact hm idx (H idx h1 (by omega))
+  have jf : ∀ sc, JoinOk s l sc → JoinOk s' l sc := fun sc H => H.frame hheld hw
+  clear hw
   unfold LocalOk at h ⊢
   split <;> simp_all <;> grind
 
-theorem LocalOk.quiet (h : LocalOk s l) (hq : quiet l = true) : LocalOk s' l := by
+/-- a thread outside the machinery: only the generation (which grows) and the word matter -/
+theorem LocalOk.quiet (h : LocalOk s l) (hq : quiet l = true) (hgen : s.gen ≤ s'.gen)
+    (hheld : l.heldGen ≤ s.gen) (hw : WordFrame s s') : LocalOk s' l := by
+  have jf : ∀ sc, JoinOk s l sc → JoinOk s' l sc := fun sc H => H.frame hheld hw
+  clear hw
   unfold LocalOk at h ⊢; unfold Flurry.Proto.Resize.quiet at hq
-  split <;> simp_all
+  split <;> simp_all <;> grind
 
 /-- `nextTable` may change under a thread that is not a finisher -/
 theorem LocalOk.frame_nf (h : LocalOk s l) (hnf : isFinisher l = false) (hn : s'.n = s.n)
-    (hm : ∀ idx, s.moved.getD idx false = true → s'.moved.getD idx false = true) :
+    (hm : ∀ idx, s.moved.getD idx false = true → s'.moved.getD idx false = true)
+    (hgen : s'.gen = s.gen) (hheld : l.heldGen ≤ s.gen) (hw : WordFrame s s') :
     LocalOk s' l := by
   have mf : ∀ lo, MovedFrom s lo → MovedFrom s' lo := by
     intro lo H idx h1 h2; exact hm idx (H idx h1 (by omega))
+  have jf : ∀ sc, JoinOk s l sc → JoinOk s' l sc := fun sc H => H.frame hheld hw
+  clear hw
   unfold LocalOk at h ⊢; unfold isFinisher at hnf
-  split <;> simp_all
+  split <;> simp_all <;> grind
 
 theorem getD_true_eq_false {m : List Bool} {idx : Nat} (h : idx < m.length) :
     m.getD idx true = m.getD idx false := by
@@ -104,10 +127,10 @@ theorem locals_set {ths : List Local} (H1 : LocalOk s' l')
 
 /-! ## the initial state -/
 
-theorem Inv.init (n0 nthreads stride : Nat) : Inv n0 nthreads stride (init n0 nthreads stride) := by
+theorem Inv.init (n0 nthreads stride : Nat) : Inv n0 nthreads stride (init n0 nthreads stride true) := by
   have hth : ∀ l ∈ List.replicate nthreads ({} : Local), l = {} := fun l hl => List.eq_of_mem_replicate hl
   refine ⟨rfl, by simp [Resize.init], by simp [Resize.init], rfl, by simp [Resize.init],
-    by simp [Resize.init], ?_, ?_, ?_, ?_, ?_⟩
+    by simp [Resize.init], ?_, ?_, ?_, ?_, ?_, rfl, rfl, ?_⟩
   · simp [Resize.init, cnt, P]; intros; simp [participating]
   · simp [Resize.init, finWord, F]; intros; simp [isFinisher]
   · simp [Resize.init]
@@ -115,6 +138,9 @@ theorem Inv.init (n0 nthreads stride : Nat) : Inv n0 nthreads stride (init n0 nt
   · intro t l hl
     have := hth l (List.mem_of_getElem? hl)
     subst this; simp [LocalOk]
+  · intro t l hl
+    have := hth l (List.mem_of_getElem? hl)
+    subst this; simp [Resize.init]
 
 /-! ## master lemma: a step of thread `t` that leaves `n`, `gen`, `moved`, `migrations`,
 `published`, `nextTable` alone -/
@@ -124,6 +150,7 @@ def b2n (b : Bool) : Nat := if b then 1 else 0
 /-- general form: every field of `Inv` for the new state, with the counters resolved -/
 theorem Inv.upd' (h : Inv n0 nthreads stride s) (hl : s.threads[t]? = some l)
     (hth : s'.threads = s.threads.set t l') (hstride : s'.stride = s.stride)
+    (hck : s'.checkGen = s.checkGen) (hsj : s'.staleJoins = s.staleJoins)
     (hn : s'.n = n0 * 2 ^ s'.gen) (hpub : s'.published = List.replicate s'.gen 1)
     (hml : s'.moved.length = s'.n)
     (hmg : s'.migrations = s'.moved.map (fun b => if b then 1 else 0))
@@ -132,13 +159,14 @@ theorem Inv.upd' (h : Inv n0 nthreads stride s) (hl : s.threads[t]? = some l)
     (hg : ∀ g c, s'.sizeCtl = .resizing g c → g + S s + b2n (atStore l') = s'.gen + b2n (atStore l))
     (hidle : ∀ thr, s'.sizeCtl = .idle thr → thr = threshold s'.n ∧ s'.nextTable = false)
     (hloc : LocalOk s' l')
-    (hothers : ∀ (u : Nat) (lu : Local), u ≠ t → s.threads[u]? = some lu → LocalOk s lu → LocalOk s' lu) :
+    (hothers : ∀ (u : Nat) (lu : Local), u ≠ t → s.threads[u]? = some lu → LocalOk s lu → LocalOk s' lu)
+    (hgen : s.gen ≤ s'.gen) (hheld : l'.heldGen ≤ s'.gen) :
     Inv n0 nthreads stride s' := by
   have hP := countP_set_add (p := participating) (x := l') hl
   have hF := countP_set_add (p := isFinisher) (x := l') hl
   have hS := countP_set_add (p := atStore) (x := l') hl
   refine ⟨by rw [hstride, h.stride_eq], by rw [hth, List.length_set, h.nthreads_eq],
-    hn, hpub, hml, hmg, ?_, ?_, ?_, hidle, ?_⟩
+    hn, hpub, hml, hmg, ?_, ?_, ?_, hidle, ?_, by rw [hck, h.check_eq], by rw [hsj, h.stale_eq], ?_⟩
   · have := h.cnt_eq; simp only [P, hth, b2n] at *; omega
   · have := h.fin_eq; simp only [F, hth, b2n] at *; omega
   · intro g c hsc
@@ -147,9 +175,15 @@ theorem Inv.upd' (h : Inv n0 nthreads stride s) (hl : s.threads[t]? = some l)
     refine locals_set hloc ?_
     intro u lu hne hu
     exact hothers u lu hne hu (h.locals u lu hu)
+  · intro u lu hu
+    rw [hth, List.getElem?_set] at hu
+    split at hu
+    · simp at hu; rw [← hu.2]; exact hheld
+    · exact Nat.le_trans (h.held_le u lu hu) hgen
 
 theorem Inv.upd (h : Inv n0 nthreads stride s) (hl : s.threads[t]? = some l)
     (hth : s'.threads = s.threads.set t l') (hstride : s'.stride = s.stride)
+    (hck : s'.checkGen = s.checkGen) (hsj : s'.staleJoins = s.staleJoins)
     (hn : s'.n = s.n) (hgen : s'.gen = s.gen) (hmv : s'.moved = s.moved)
     (hmg : s'.migrations = s.migrations) (hpub : s'.published = s.published)
     (hnt : s'.nextTable = s.nextTable)
@@ -157,12 +191,15 @@ theorem Inv.upd (h : Inv n0 nthreads stride s) (hl : s.threads[t]? = some l)
     (hfin : finWord s'.sizeCtl + b2n (isFinisher l) = finWord s.sizeCtl + b2n (isFinisher l'))
     (hg : ∀ g c, s'.sizeCtl = .resizing g c → g + S s + b2n (atStore l') = s.gen + b2n (atStore l))
     (hidle : ∀ thr, s'.sizeCtl = .idle thr → thr = threshold s.n ∧ s.nextTable = false)
-    (hloc : LocalOk s' l') : Inv n0 nthreads stride s' := by
-  refine h.upd' hl hth hstride (by rw [hn, hgen, h.n_eq]) (by rw [hpub, hgen, h.pub_eq])
+    (hloc : LocalOk s' l') (hw : WordFrame s s')
+    (hheld : l'.heldGen = l.heldGen ∨ l'.heldGen = s.gen) : Inv n0 nthreads stride s' := by
+  refine h.upd' hl hth hstride hck hsj (by rw [hn, hgen, h.n_eq]) (by rw [hpub, hgen, h.pub_eq])
     (by rw [hmv, hn, h.moved_len]) (by rw [hmg, hmv, h.migr_eq]) hcnt hfin (by rw [hgen]; exact hg)
-    (by rw [hn, hnt]; exact hidle) hloc ?_
-  intro u lu _ _ hlu
-  exact hlu.frame hn hnt (by rw [hmv]; exact fun _ h => h)
+    (by rw [hn, hnt]; exact hidle) hloc ?_ (by omega) ?_
+  · intro u lu _ hu hlu
+    exact hlu.frame hn hnt (by rw [hmv]; exact fun _ h => h) hgen (h.held_le u lu hu) hw
+  · have := h.held_le t l hl
+    omega
 
 /-! ## the step cases -/
 
@@ -181,6 +218,32 @@ theorem Inv.facts (h : Inv n0 nthreads stride s) :
     (∀ thr, s.sizeCtl = .idle thr → thr = threshold s.n ∧ s.nextTable = false) :=
   ⟨h.cnt_eq, h.fin_eq, S_le_F s, h.gen_eq, h.idle_thr⟩
 
+/-- a thread at `pubStoreCtl` exists: the next table has been cleared -/
+theorem Inv.S_pos_nextTable (h : Inv n0 nthreads stride s) (hS : 0 < S s) : s.nextTable = false := by
+  obtain ⟨l, hl, hp⟩ := List.countP_pos_iff.mp (show 0 < s.threads.countP atStore from hS)
+  obtain ⟨t, ht⟩ := List.mem_iff_getElem?.mp hl
+  have hL := h.locals t l ht
+  simp only [LocalOk, (atStore_iff l).mp hp] at hL
+  exact hL
+
+/-- the stamp of the word is never ahead of the table -/
+theorem Inv.word_gen_le (h : Inv n0 nthreads stride s) {g c : Nat} (hsc : s.sizeCtl = .resizing g c) :
+    g ≤ s.gen := by
+  have := h.gen_eq g c hsc; omega
+
+/-- a word counting more than the finisher carries the stamp of the current table -/
+theorem Inv.word_gen_eq (h : Inv n0 nthreads stride s) {g c : Nat} (hsc : s.sizeCtl = .resizing g c)
+    (hc : c ≠ 1) : g = s.gen := by
+  have h1 := h.gen_eq g c hsc
+  have h2 := S_le_F s
+  have h3 := h.fin_eq
+  rw [hsc] at h3
+  have : finWord (.resizing g c) = 0 := by
+    unfold finWord; split
+    · rename_i heq; cases heq; omega
+    · rfl
+  omega
+
 theorem Inv.step_idle {c : Nat} (h : Inv n0 nthreads stride s)
     (hl : s.threads[t]? = some l) (hpc : l.pc = .idle)
     (hs : step s t c = some s') : Inv n0 nthreads stride s' := by
@@ -190,7 +253,16 @@ theorem Inv.step_idle {c : Nat} (h : Inv n0 nthreads stride s)
   split at hs
   · injection hs with hs; subst hs
     rename_i thr hsc
-    refine h.upd hl rfl rfl rfl rfl rfl rfl rfl rfl ?_ ?_ ?_ ?_ ?_
+    refine h.upd hl rfl rfl rfl rfl rfl rfl rfl rfl rfl rfl ?_ ?_ ?_ ?_ ?_ (.of_eq rfl) (.inl rfl)
+    · have hfacts := h.facts; resize_close
+    · have hfacts := h.facts; resize_close
+    · have hfacts := h.facts; resize_close
+    · have hfacts := h.facts; resize_close
+    · resize_local
+  · injection hs with hs; subst hs
+    rename_i g k hsc
+    have hgk := h.word_gen_le hsc
+    refine h.upd hl rfl rfl rfl rfl rfl rfl rfl rfl rfl rfl ?_ ?_ ?_ ?_ ?_ (.of_eq rfl) (.inl rfl)
     · have hfacts := h.facts; resize_close
     · have hfacts := h.facts; resize_close
     · have hfacts := h.facts; resize_close
@@ -198,10 +270,7 @@ theorem Inv.step_idle {c : Nat} (h : Inv n0 nthreads stride s)
     · resize_local
   · split at hs
     · injection hs with hs; subst hs
-      rename_i g c hsc hcond
-      have hc1 : c ≠ 1 := by intro h1; subst h1; simp at hcond
-      clear hcond
-      refine h.upd hl rfl rfl rfl rfl rfl rfl rfl rfl ?_ ?_ ?_ ?_ ?_
+      refine h.upd hl rfl rfl rfl rfl rfl rfl rfl rfl rfl rfl ?_ ?_ ?_ ?_ ?_ (.of_eq rfl) (.inr rfl)
       · have hfacts := h.facts; resize_close
       · have hfacts := h.facts; resize_close
       · have hfacts := h.facts; resize_close
@@ -219,14 +288,14 @@ theorem Inv.step_casInit {sc : SC} {c : Nat} (h : Inv n0 nthreads stride s)
   obtain ⟨hfin, thr, rfl⟩ : l.finishing = false ∧ ∃ thr, sc = .idle thr := by simpa [LocalOk, hpc] using hL
   split at hs
   · injection hs with hs; subst hs
-    refine h.upd hl rfl rfl rfl rfl rfl rfl rfl rfl ?_ ?_ ?_ ?_ ?_
+    refine h.upd hl rfl rfl rfl rfl rfl rfl rfl rfl rfl rfl ?_ ?_ ?_ ?_ ?_ (by intro g _ hw; simp at hw) (.inl rfl)
     · have hfacts := h.facts; resize_close
     · have hfacts := h.facts; resize_close
     · have hfacts := h.facts; resize_close
     · have hfacts := h.facts; resize_close
     · resize_local
   · injection hs with hs; subst hs
-    refine h.upd hl rfl rfl rfl rfl rfl rfl rfl rfl ?_ ?_ ?_ ?_ ?_
+    refine h.upd hl rfl rfl rfl rfl rfl rfl rfl rfl rfl rfl ?_ ?_ ?_ ?_ ?_ (.of_eq rfl) (.inl rfl)
     · have hfacts := h.facts; resize_close
     · have hfacts := h.facts; resize_close
     · have hfacts := h.facts; resize_close
@@ -241,7 +310,7 @@ theorem Inv.step_storeIndex {c : Nat} (h : Inv n0 nthreads stride s)
   simp only [LocalOk, hpc] at hL
   simp only [step, hl, hpc] at hs
   injection hs with hs; subst hs
-  refine h.upd hl rfl rfl rfl rfl rfl rfl rfl rfl ?_ ?_ ?_ ?_ ?_
+  refine h.upd hl rfl rfl rfl rfl rfl rfl rfl rfl rfl rfl ?_ ?_ ?_ ?_ ?_ (.of_eq rfl) (.inl rfl)
   · have hfacts := h.facts; resize_close
   · have hfacts := h.facts; resize_close
   · have hfacts := h.facts; resize_close
@@ -253,24 +322,216 @@ theorem Inv.step_casJoin {sc : SC} {c : Nat} (h : Inv n0 nthreads stride s)
     (hs : step s t c = some s') : Inv n0 nthreads stride s' := by
   have hL := h.locals t l hl
   simp only [LocalOk, hpc] at hL
-  obtain ⟨hfin, g, k, rfl, hk⟩ : l.finishing = false ∧ ∃ g c, sc = .resizing g c ∧ c ≠ 1 := by
-    simpa [LocalOk, hpc] using hL
+  obtain ⟨hfin, g, k, rfl, hgh, hk1⟩ := hL
+  have hheld := h.held_le t l hl
+  simp only [step, hl, hpc] at hs
+  split at hs
+  · rename_i hword
+    have hword : s.sizeCtl = .resizing g k := by simpa using hword
+    have hk : k ≠ 1 := by
+      intro h1; subst h1; exact (hk1 rfl).2 hword
+    have hg : g = s.gen := h.word_gen_eq hword hk
+    have hk0 : k ≠ 0 := by
+      have := h.cnt_eq; rw [hword] at this; simp only [cnt] at this; omega
+    split at hs
+    · injection hs with hs; subst hs
+      refine h.upd hl rfl rfl rfl rfl rfl rfl rfl rfl rfl rfl ?_ ?_ ?_ ?_ ?_ (by intro g _ hw; simp at hw; omega) (.inl rfl)
+      · have hfacts := h.facts; resize_close
+      · have hfacts := h.facts; resize_close
+      · have hfacts := h.facts; resize_close
+      · have hfacts := h.facts; resize_close
+      · resize_local
+    · rename_i hne
+      exact absurd (by simp; omega) hne
+  · injection hs with hs; subst hs
+    refine h.upd hl rfl rfl rfl rfl rfl rfl rfl rfl rfl rfl ?_ ?_ ?_ ?_ ?_ (.of_eq rfl) (.inl rfl)
+    · have hfacts := h.facts; resize_close
+    · have hfacts := h.facts; resize_close
+    · have hfacts := h.facts; resize_close
+    · have hfacts := h.facts; resize_close
+    · resize_local
+
+/-! ### the two join paths -/
+
+theorem Inv.step_helpCheckNext {c : Nat} (h : Inv n0 nthreads stride s)
+    (hl : s.threads[t]? = some l) (hpc : l.pc = .helpCheckNext)
+    (hs : step s t c = some s') : Inv n0 nthreads stride s' := by
+  have hL := h.locals t l hl
+  simp only [LocalOk, hpc] at hL
   simp only [step, hl, hpc] at hs
   split at hs
   · injection hs with hs; subst hs
-    refine h.upd hl rfl rfl rfl rfl rfl rfl rfl rfl ?_ ?_ ?_ ?_ ?_
+    refine h.upd hl rfl rfl rfl rfl rfl rfl rfl rfl rfl rfl ?_ ?_ ?_ ?_ ?_ (.of_eq rfl) (.inl rfl)
     · have hfacts := h.facts; resize_close
     · have hfacts := h.facts; resize_close
     · have hfacts := h.facts; resize_close
     · have hfacts := h.facts; resize_close
     · resize_local
   · injection hs with hs; subst hs
-    refine h.upd hl rfl rfl rfl rfl rfl rfl rfl rfl ?_ ?_ ?_ ?_ ?_
+    refine h.upd hl rfl rfl rfl rfl rfl rfl rfl rfl rfl rfl ?_ ?_ ?_ ?_ ?_ (.of_eq rfl) (.inl rfl)
     · have hfacts := h.facts; resize_close
     · have hfacts := h.facts; resize_close
     · have hfacts := h.facts; resize_close
     · have hfacts := h.facts; resize_close
     · resize_local
+
+theorem Inv.step_helpCheckTable {c : Nat} (h : Inv n0 nthreads stride s)
+    (hl : s.threads[t]? = some l) (hpc : l.pc = .helpCheckTable)
+    (hs : step s t c = some s') : Inv n0 nthreads stride s' := by
+  have hL := h.locals t l hl
+  simp only [LocalOk, hpc] at hL
+  simp only [step, hl, hpc] at hs
+  split at hs
+  · injection hs with hs; subst hs
+    refine h.upd hl rfl rfl rfl rfl rfl rfl rfl rfl rfl rfl ?_ ?_ ?_ ?_ ?_ (.of_eq rfl) (.inl rfl)
+    · have hfacts := h.facts; resize_close
+    · have hfacts := h.facts; resize_close
+    · have hfacts := h.facts; resize_close
+    · have hfacts := h.facts; resize_close
+    · resize_local
+  · injection hs with hs; subst hs
+    refine h.upd hl rfl rfl rfl rfl rfl rfl rfl rfl rfl rfl ?_ ?_ ?_ ?_ ?_ (.of_eq rfl) (.inl rfl)
+    · have hfacts := h.facts; resize_close
+    · have hfacts := h.facts; resize_close
+    · have hfacts := h.facts; resize_close
+    · have hfacts := h.facts; resize_close
+    · resize_local
+
+theorem Inv.step_helpLoadSc {c : Nat} (h : Inv n0 nthreads stride s)
+    (hl : s.threads[t]? = some l) (hpc : l.pc = .helpLoadSc)
+    (hs : step s t c = some s') : Inv n0 nthreads stride s' := by
+  have hL := h.locals t l hl
+  simp only [LocalOk, hpc] at hL
+  simp only [step, hl, hpc, h.check_eq] at hs
+  split at hs
+  · injection hs with hs; subst hs
+    refine h.upd hl rfl rfl rfl rfl rfl rfl rfl rfl rfl rfl ?_ ?_ ?_ ?_ ?_ (.of_eq rfl) (.inl rfl)
+    · have hfacts := h.facts; resize_close
+    · have hfacts := h.facts; resize_close
+    · have hfacts := h.facts; resize_close
+    · have hfacts := h.facts; resize_close
+    · resize_local
+  · split at hs
+    · injection hs with hs; subst hs
+      refine h.upd hl rfl rfl rfl rfl rfl rfl rfl rfl rfl rfl ?_ ?_ ?_ ?_ ?_ (.of_eq rfl) (.inl rfl)
+      · have hfacts := h.facts; resize_close
+      · have hfacts := h.facts; resize_close
+      · have hfacts := h.facts; resize_close
+      · have hfacts := h.facts; resize_close
+      · resize_local
+    · injection hs with hs; subst hs
+      rename_i g k hsc href
+      have href : g = l.heldGen ∧ k ≠ 1 := by
+        simp [helpRefuses] at href; exact ⟨href.1, (href.2 href.1).2⟩
+      refine h.upd hl rfl rfl rfl rfl rfl rfl rfl rfl rfl rfl ?_ ?_ ?_ ?_ ?_ (.of_eq rfl) (.inl rfl)
+      · have hfacts := h.facts; resize_close
+      · have hfacts := h.facts; resize_close
+      · have hfacts := h.facts; resize_close
+      · have hfacts := h.facts; resize_close
+      · exact ⟨hL, g, k, rfl, Nat.le_of_eq href.1, fun h1 => absurd h1 href.2⟩
+
+theorem Inv.step_helpLoadIndex {sc : SC} {c : Nat} (h : Inv n0 nthreads stride s)
+    (hl : s.threads[t]? = some l) (hpc : l.pc = .helpLoadIndex sc)
+    (hs : step s t c = some s') : Inv n0 nthreads stride s' := by
+  have hL := h.locals t l hl
+  simp only [LocalOk, hpc] at hL
+  have hfin := hL.1
+  simp only [step, hl, hpc] at hs
+  split at hs
+  · injection hs with hs; subst hs
+    refine h.upd hl rfl rfl rfl rfl rfl rfl rfl rfl rfl rfl ?_ ?_ ?_ ?_ ?_ (.of_eq rfl) (.inl rfl)
+    · have hfacts := h.facts; resize_close
+    · have hfacts := h.facts; resize_close
+    · have hfacts := h.facts; resize_close
+    · have hfacts := h.facts; resize_close
+    · resize_local
+  · injection hs with hs; subst hs
+    refine h.upd hl rfl rfl rfl rfl rfl rfl rfl rfl rfl rfl ?_ ?_ ?_ ?_ ?_ (.of_eq rfl) (.inl rfl)
+    · have hfacts := h.facts; resize_close
+    · have hfacts := h.facts; resize_close
+    · have hfacts := h.facts; resize_close
+    · have hfacts := h.facts; resize_close
+    · exact hL
+
+theorem Inv.step_acLoadTable {sc : SC} {c : Nat} (h : Inv n0 nthreads stride s)
+    (hl : s.threads[t]? = some l) (hpc : l.pc = .acLoadTable sc)
+    (hs : step s t c = some s') : Inv n0 nthreads stride s' := by
+  have hL := h.locals t l hl
+  simp only [LocalOk, hpc] at hL
+  obtain ⟨hfin, g, k, rfl, hgk⟩ := hL
+  simp only [step, hl, hpc] at hs
+  split at hs
+  · injection hs with hs; subst hs
+    refine h.upd hl rfl rfl rfl rfl rfl rfl rfl rfl rfl rfl ?_ ?_ ?_ ?_ ?_ (.of_eq rfl) (.inr rfl)
+    · have hfacts := h.facts; resize_close
+    · have hfacts := h.facts; resize_close
+    · have hfacts := h.facts; resize_close
+    · have hfacts := h.facts; resize_close
+    · resize_local
+  · injection hs with hs; subst hs
+    rename_i href
+    have href : k = 1 → g < s.gen := by
+      intro h1; simp [acRefuses, h1] at href; omega
+    refine h.upd hl rfl rfl rfl rfl rfl rfl rfl rfl rfl rfl ?_ ?_ ?_ ?_ ?_ (.of_eq rfl) (.inr rfl)
+    · have hfacts := h.facts; resize_close
+    · have hfacts := h.facts; resize_close
+    · have hfacts := h.facts; resize_close
+    · have hfacts := h.facts; resize_close
+    · exact ⟨hfin, g, k, rfl, hgk, href⟩
+
+theorem Inv.step_acLoadNext {sc : SC} {c : Nat} (h : Inv n0 nthreads stride s)
+    (hl : s.threads[t]? = some l) (hpc : l.pc = .acLoadNext sc)
+    (hs : step s t c = some s') : Inv n0 nthreads stride s' := by
+  have hL := h.locals t l hl
+  simp only [LocalOk, hpc] at hL
+  obtain ⟨hfin, g, k, rfl, hgk, hk1⟩ := hL
+  have hheld := h.held_le t l hl
+  simp only [step, hl, hpc] at hs
+  split at hs
+  · injection hs with hs; subst hs
+    rename_i hnt
+    have hw : k = 1 → s.sizeCtl ≠ .resizing g 1 := by
+      intro h1 hword
+      have h2 := h.gen_eq g 1 hword
+      have h3 := hk1 h1
+      have := h.S_pos_nextTable (by omega)
+      simp [this] at hnt
+    refine h.upd hl rfl rfl rfl rfl rfl rfl rfl rfl rfl rfl ?_ ?_ ?_ ?_ ?_ (.of_eq rfl) (.inl rfl)
+    · have hfacts := h.facts; resize_close
+    · have hfacts := h.facts; resize_close
+    · have hfacts := h.facts; resize_close
+    · have hfacts := h.facts; resize_close
+    · exact ⟨hfin, g, k, rfl, hgk, fun h1 => ⟨hk1 h1, hw h1⟩⟩
+  · injection hs with hs; subst hs
+    refine h.upd hl rfl rfl rfl rfl rfl rfl rfl rfl rfl rfl ?_ ?_ ?_ ?_ ?_ (.of_eq rfl) (.inl rfl)
+    · have hfacts := h.facts; resize_close
+    · have hfacts := h.facts; resize_close
+    · have hfacts := h.facts; resize_close
+    · have hfacts := h.facts; resize_close
+    · resize_local
+
+theorem Inv.step_acLoadIndex {sc : SC} {c : Nat} (h : Inv n0 nthreads stride s)
+    (hl : s.threads[t]? = some l) (hpc : l.pc = .acLoadIndex sc)
+    (hs : step s t c = some s') : Inv n0 nthreads stride s' := by
+  have hL := h.locals t l hl
+  simp only [LocalOk, hpc] at hL
+  have hfin := hL.1
+  simp only [step, hl, hpc] at hs
+  split at hs
+  · injection hs with hs; subst hs
+    refine h.upd hl rfl rfl rfl rfl rfl rfl rfl rfl rfl rfl ?_ ?_ ?_ ?_ ?_ (.of_eq rfl) (.inl rfl)
+    · have hfacts := h.facts; resize_close
+    · have hfacts := h.facts; resize_close
+    · have hfacts := h.facts; resize_close
+    · have hfacts := h.facts; resize_close
+    · resize_local
+  · injection hs with hs; subst hs
+    refine h.upd hl rfl rfl rfl rfl rfl rfl rfl rfl rfl rfl ?_ ?_ ?_ ?_ ?_ (.of_eq rfl) (.inl rfl)
+    · have hfacts := h.facts; resize_close
+    · have hfacts := h.facts; resize_close
+    · have hfacts := h.facts; resize_close
+    · have hfacts := h.facts; resize_close
+    · exact hL
 
 theorem Inv.step_claimLoad {c : Nat} (h : Inv n0 nthreads stride s)
     (hl : s.threads[t]? = some l) (hpc : l.pc = .claimLoad)
@@ -280,7 +541,7 @@ theorem Inv.step_claimLoad {c : Nat} (h : Inv n0 nthreads stride s)
   simp only [step, hl, hpc] at hs
   split at hs
   · injection hs with hs; subst hs
-    refine h.upd hl rfl rfl rfl rfl rfl rfl rfl rfl ?_ ?_ ?_ ?_ ?_
+    refine h.upd hl rfl rfl rfl rfl rfl rfl rfl rfl rfl rfl ?_ ?_ ?_ ?_ ?_ (.of_eq rfl) (.inl rfl)
     · have hfacts := h.facts; resize_close
     · have hfacts := h.facts; resize_close
     · have hfacts := h.facts; resize_close
@@ -288,7 +549,7 @@ theorem Inv.step_claimLoad {c : Nat} (h : Inv n0 nthreads stride s)
     · resize_local
   · split at hs
     · injection hs with hs; subst hs
-      refine h.upd hl rfl rfl rfl rfl rfl rfl rfl rfl ?_ ?_ ?_ ?_ ?_
+      refine h.upd hl rfl rfl rfl rfl rfl rfl rfl rfl rfl rfl ?_ ?_ ?_ ?_ ?_ (.of_eq rfl) (.inl rfl)
       · have hfacts := h.facts; resize_close
       · have hfacts := h.facts; resize_close
       · have hfacts := h.facts; resize_close
@@ -296,14 +557,14 @@ theorem Inv.step_claimLoad {c : Nat} (h : Inv n0 nthreads stride s)
       · resize_local
     · split at hs
       · injection hs with hs; subst hs
-        refine h.upd hl rfl rfl rfl rfl rfl rfl rfl rfl ?_ ?_ ?_ ?_ ?_
+        refine h.upd hl rfl rfl rfl rfl rfl rfl rfl rfl rfl rfl ?_ ?_ ?_ ?_ ?_ (.of_eq rfl) (.inl rfl)
         · have hfacts := h.facts; resize_close
         · have hfacts := h.facts; resize_close
         · have hfacts := h.facts; resize_close
         · have hfacts := h.facts; resize_close
         · resize_local
       · injection hs with hs; subst hs
-        refine h.upd hl rfl rfl rfl rfl rfl rfl rfl rfl ?_ ?_ ?_ ?_ ?_
+        refine h.upd hl rfl rfl rfl rfl rfl rfl rfl rfl rfl rfl ?_ ?_ ?_ ?_ ?_ (.of_eq rfl) (.inl rfl)
         · have hfacts := h.facts; resize_close
         · have hfacts := h.facts; resize_close
         · have hfacts := h.facts; resize_close
@@ -318,14 +579,14 @@ theorem Inv.step_claimCas {ni : Int} {c : Nat} (h : Inv n0 nthreads stride s)
   simp only [step, hl, hpc] at hs
   split at hs
   · injection hs with hs; subst hs
-    refine h.upd hl rfl rfl rfl rfl rfl rfl rfl rfl ?_ ?_ ?_ ?_ ?_
+    refine h.upd hl rfl rfl rfl rfl rfl rfl rfl rfl rfl rfl ?_ ?_ ?_ ?_ ?_ (.of_eq rfl) (.inl rfl)
     · have hfacts := h.facts; resize_close
     · have hfacts := h.facts; resize_close
     · have hfacts := h.facts; resize_close
     · have hfacts := h.facts; resize_close
     · resize_local
   · injection hs with hs; subst hs
-    refine h.upd hl rfl rfl rfl rfl rfl rfl rfl rfl ?_ ?_ ?_ ?_ ?_
+    refine h.upd hl rfl rfl rfl rfl rfl rfl rfl rfl rfl rfl ?_ ?_ ?_ ?_ ?_ (.of_eq rfl) (.inl rfl)
     · have hfacts := h.facts; resize_close
     · have hfacts := h.facts; resize_close
     · have hfacts := h.facts; resize_close
@@ -341,21 +602,21 @@ theorem Inv.step_dispatch {c : Nat} (h : Inv n0 nthreads stride s)
   split at hs
   · split at hs
     · injection hs with hs; subst hs
-      refine h.upd hl rfl rfl rfl rfl rfl rfl rfl rfl ?_ ?_ ?_ ?_ ?_
+      refine h.upd hl rfl rfl rfl rfl rfl rfl rfl rfl rfl rfl ?_ ?_ ?_ ?_ ?_ (.of_eq rfl) (.inl rfl)
       · have hfacts := h.facts; resize_close
       · have hfacts := h.facts; resize_close
       · have hfacts := h.facts; resize_close
       · have hfacts := h.facts; resize_close
       · resize_local
     · injection hs with hs; subst hs
-      refine h.upd hl rfl rfl rfl rfl rfl rfl rfl rfl ?_ ?_ ?_ ?_ ?_
+      refine h.upd hl rfl rfl rfl rfl rfl rfl rfl rfl rfl rfl ?_ ?_ ?_ ?_ ?_ (.of_eq rfl) (.inl rfl)
       · have hfacts := h.facts; resize_close
       · have hfacts := h.facts; resize_close
       · have hfacts := h.facts; resize_close
       · have hfacts := h.facts; resize_close
       · resize_local
   · injection hs with hs; subst hs
-    refine h.upd hl rfl rfl rfl rfl rfl rfl rfl rfl ?_ ?_ ?_ ?_ ?_
+    refine h.upd hl rfl rfl rfl rfl rfl rfl rfl rfl rfl rfl ?_ ?_ ?_ ?_ ?_ (.of_eq rfl) (.inl rfl)
     · have hfacts := h.facts; resize_close
     · have hfacts := h.facts; resize_close
     · have hfacts := h.facts; resize_close
@@ -369,7 +630,7 @@ theorem Inv.step_leaveLoad {c : Nat} (h : Inv n0 nthreads stride s)
   simp only [LocalOk, hpc] at hL
   simp only [step, hl, hpc] at hs
   injection hs with hs; subst hs
-  refine h.upd hl rfl rfl rfl rfl rfl rfl rfl rfl ?_ ?_ ?_ ?_ ?_
+  refine h.upd hl rfl rfl rfl rfl rfl rfl rfl rfl rfl rfl ?_ ?_ ?_ ?_ ?_ (.of_eq rfl) (.inl rfl)
   · have hfacts := h.facts; resize_close
   · have hfacts := h.facts; resize_close
   · have hfacts := h.facts; resize_close
@@ -391,21 +652,21 @@ theorem Inv.step_leaveCas {sc : SC} {c : Nat} (h : Inv n0 nthreads stride s)
     simp only at hs
     split at hs
     · injection hs with hs; subst hs
-      refine h.upd hl rfl rfl rfl rfl rfl rfl rfl rfl ?_ ?_ ?_ ?_ ?_
+      refine h.upd hl rfl rfl rfl rfl rfl rfl rfl rfl rfl rfl ?_ ?_ ?_ ?_ ?_ (by intro g hg hw; simp at hw; omega) (.inl rfl)
       · have hfacts := h.facts; resize_close
       · have hfacts := h.facts; resize_close
       · have hfacts := h.facts; resize_close
       · have hfacts := h.facts; resize_close
       · resize_local
     · injection hs with hs; subst hs
-      refine h.upd hl rfl rfl rfl rfl rfl rfl rfl rfl ?_ ?_ ?_ ?_ ?_
+      refine h.upd hl rfl rfl rfl rfl rfl rfl rfl rfl rfl rfl ?_ ?_ ?_ ?_ ?_ (by intro g hg hw; simp at hw; omega) (.inl rfl)
       · have hfacts := h.facts; resize_close
       · have hfacts := h.facts; resize_close
       · have hfacts := h.facts; resize_close
       · have hfacts := h.facts; resize_close
       · resize_local
   · injection hs with hs; subst hs
-    refine h.upd hl rfl rfl rfl rfl rfl rfl rfl rfl ?_ ?_ ?_ ?_ ?_
+    refine h.upd hl rfl rfl rfl rfl rfl rfl rfl rfl rfl rfl ?_ ?_ ?_ ?_ ?_ (.of_eq rfl) (.inl rfl)
     · have hfacts := h.facts; resize_close
     · have hfacts := h.facts; resize_close
     · have hfacts := h.facts; resize_close
@@ -421,7 +682,7 @@ theorem Inv.step_pubStoreCtl {c : Nat} (h : Inv n0 nthreads stride s)
   obtain ⟨⟨g, hsc⟩, hP, hF⟩ := h.fin_facts hl hp
   simp only [step, hl, hpc] at hs
   injection hs with hs; subst hs
-  refine h.upd hl rfl rfl rfl rfl rfl rfl rfl rfl ?_ ?_ ?_ ?_ ?_
+  refine h.upd hl rfl rfl rfl rfl rfl rfl rfl rfl rfl rfl ?_ ?_ ?_ ?_ ?_ (by intro g hg hw; simp at hw) (.inl rfl)
   · have hfacts := h.facts; resize_close
   · have hfacts := h.facts; resize_close
   · have hfacts := h.facts; resize_close
@@ -438,7 +699,8 @@ theorem Inv.step_swapNext {c : Nat} (h : Inv n0 nthreads stride s)
   obtain ⟨k, hsc, hk, hk2, hF, hS⟩ := h.part_facts hl hp
   simp only [step, hl, hpc] at hs
   injection hs with hs; subst hs
-  refine h.upd' hl rfl rfl h.n_eq h.pub_eq h.moved_len h.migr_eq ?_ ?_ ?_ ?_ ?_ ?_
+  refine h.upd' hl rfl rfl rfl rfl h.n_eq h.pub_eq h.moved_len h.migr_eq ?_ ?_ ?_ ?_ ?_ ?_
+    (Nat.le_refl _) (h.held_le t l hl)
   · have hfacts := h.facts; resize_close
   · have hfacts := h.facts; resize_close
   · have hfacts := h.facts; resize_close
@@ -448,7 +710,7 @@ theorem Inv.step_swapNext {c : Nat} (h : Inv n0 nthreads stride s)
     have hnf : isFinisher lu = false := by
       have : ∀ a ∈ s.threads, ¬ isFinisher a = true := List.countP_eq_zero.mp hF
       simpa using this lu (List.mem_of_getElem? hu)
-    exact hlu.frame_nf hnf rfl (fun _ h => h)
+    exact hlu.frame_nf hnf rfl (fun _ h => h) rfl (h.held_le u lu hu) (.of_eq rfl)
 
 theorem Inv.step_pubClearNext {c : Nat} (h : Inv n0 nthreads stride s)
     (hl : s.threads[t]? = some l) (hpc : l.pc = .pubClearNext)
@@ -459,14 +721,15 @@ theorem Inv.step_pubClearNext {c : Nat} (h : Inv n0 nthreads stride s)
   obtain ⟨⟨g, hsc⟩, hP, hF⟩ := h.fin_facts hl hp
   simp only [step, hl, hpc] at hs
   injection hs with hs; subst hs
-  refine h.upd' hl rfl rfl h.n_eq h.pub_eq h.moved_len h.migr_eq ?_ ?_ ?_ ?_ ?_ ?_
+  refine h.upd' hl rfl rfl rfl rfl h.n_eq h.pub_eq h.moved_len h.migr_eq ?_ ?_ ?_ ?_ ?_ ?_
+    (Nat.le_refl _) (h.held_le t l hl)
   · have hfacts := h.facts; resize_close
   · have hfacts := h.facts; resize_close
   · have hfacts := h.facts; resize_close
   · have hfacts := h.facts; resize_close
   · resize_local
   · intro u lu hne hu hlu
-    exact hlu.quiet (h.others_quiet hl hp hne hu)
+    exact hlu.quiet (h.others_quiet hl hp hne hu) (Nat.le_refl _) (h.held_le u lu hu) (.of_eq rfl)
 
 theorem Inv.step_pubSwapTable {c : Nat} (h : Inv n0 nthreads stride s)
     (hl : s.threads[t]? = some l) (hpc : l.pc = .pubSwapTable)
@@ -477,7 +740,8 @@ theorem Inv.step_pubSwapTable {c : Nat} (h : Inv n0 nthreads stride s)
   obtain ⟨⟨g, hsc⟩, hP, hF⟩ := h.fin_facts hl hp
   simp only [step, hl, hpc] at hs
   injection hs with hs; subst hs
-  refine h.upd' hl rfl rfl ?_ ?_ ?_ ?_ ?_ ?_ ?_ ?_ ?_ ?_
+  refine h.upd' hl rfl rfl rfl rfl ?_ ?_ ?_ ?_ ?_ ?_ ?_ ?_ ?_ ?_ (Nat.le_succ _)
+    (Nat.le_succ_of_le (h.held_le t l hl))
   · show 2 * s.n = n0 * 2 ^ (s.gen + 1)
     rw [h.n_eq, Nat.pow_succ]; simp [Nat.mul_comm, Nat.mul_left_comm]
   · show bumpPublished s.published s.gen = List.replicate (s.gen + 1) 1
@@ -491,7 +755,7 @@ theorem Inv.step_pubSwapTable {c : Nat} (h : Inv n0 nthreads stride s)
   · have hfacts := h.facts; resize_close
   · resize_local
   · intro u lu hne hu hlu
-    exact hlu.quiet (h.others_quiet hl hp hne hu)
+    exact hlu.quiet (h.others_quiet hl hp hne hu) (Nat.le_succ _) (h.held_le u lu hu) (.of_eq rfl)
 
 theorem Inv.step_processBin {c : Nat} (h : Inv n0 nthreads stride s)
     (hl : s.threads[t]? = some l) (hpc : l.pc = .processBin)
@@ -505,7 +769,7 @@ theorem Inv.step_processBin {c : Nat} (h : Inv n0 nthreads stride s)
   simp only [step, hl, hpc] at hs
   split at hs
   · injection hs with hs; subst hs
-    refine h.upd hl rfl rfl rfl rfl rfl rfl rfl rfl ?_ ?_ ?_ ?_ ?_
+    refine h.upd hl rfl rfl rfl rfl rfl rfl rfl rfl rfl rfl ?_ ?_ ?_ ?_ ?_ (.of_eq rfl) (.inl rfl)
     · have hfacts := h.facts; resize_close
     · have hfacts := h.facts; resize_close
     · have hfacts := h.facts; resize_close
@@ -522,7 +786,8 @@ theorem Inv.step_processBin {c : Nat} (h : Inv n0 nthreads stride s)
     have hmono : ∀ idx, s.moved.getD idx false = true →
         (s.moved.set l.i.toNat true).getD idx false = true := by
       intro idx; simp [List.getD, List.getElem?_set]; grind
-    refine h.upd' hl rfl rfl h.n_eq h.pub_eq (by simp [setT, h.moved_len]) ?_ ?_ ?_ ?_ ?_ ?_ ?_
+    refine h.upd' hl rfl rfl rfl rfl h.n_eq h.pub_eq (by simp [setT, h.moved_len]) ?_ ?_ ?_ ?_ ?_ ?_ ?_
+      (Nat.le_refl _) (h.held_le t l hl)
     · simp only [h.migr_eq, List.map_set]
       congr 1
       rename_i hnm
@@ -541,8 +806,8 @@ theorem Inv.step_processBin {c : Nat} (h : Inv n0 nthreads stride s)
       · exact hmono idx (hmf hf idx (by omega) h2)
       · have : idx = l.i.toNat := by omega
         subst this; simp [List.getD, hidx]
-    · intro u lu _ _ hlu
-      exact hlu.frame rfl rfl hmono
+    · intro u lu _ hu hlu
+      exact hlu.frame rfl rfl hmono rfl (h.held_le u lu hu) (.of_eq rfl)
 
 
 /-! ## `Inv` is inductive -/
@@ -558,6 +823,13 @@ theorem Inv.step {c : Nat} (h : Inv n0 nthreads stride s) (hs : step s t c = som
     | swapNext => exact h.step_swapNext hl hpc hs
     | storeIndex => exact h.step_storeIndex hl hpc hs
     | casJoin sc => exact h.step_casJoin hl hpc hs
+    | helpCheckNext => exact h.step_helpCheckNext hl hpc hs
+    | helpCheckTable => exact h.step_helpCheckTable hl hpc hs
+    | helpLoadSc => exact h.step_helpLoadSc hl hpc hs
+    | helpLoadIndex sc => exact h.step_helpLoadIndex hl hpc hs
+    | acLoadTable sc => exact h.step_acLoadTable hl hpc hs
+    | acLoadNext sc => exact h.step_acLoadNext hl hpc hs
+    | acLoadIndex sc => exact h.step_acLoadIndex hl hpc hs
     | claimLoad => exact h.step_claimLoad hl hpc hs
     | claimCas ni => exact h.step_claimCas hl hpc hs
     | dispatch => exact h.step_dispatch hl hpc hs
